@@ -72,6 +72,10 @@ CLAIMED = {
             "Exploration: 120 000 (type, value, by value / by pointer) cases per quick run: types assembled from every supported kind with nesting <= 4, embedded structs, tag options (rename, omitempty, -, symbol, clob, sexp, annotations wrapper), three declared shapes (embedded pointer, unexported embedded struct, named scalar types); values with boundary numbers per width, NaN / infinities, nil versus empty collections, nil / non-nil pointers, interfaces holding scalars / slices / maps, time.Time in UTC / named / unnamed zones. Checks MarshalText determinism, that text and binary output denote exactly the documented mapping (reference decoders), and that Unmarshal of each into the same type gives a semantically equal value.",
             "Semantic equality: NaN = NaN; nil and empty slice / map / []byte, and a pointer to such a value versus a nil pointer, are interchangeable; interface{} contents and time.Time are compared by denotation / instant. Not generated: annotation wrappers around structs, maps or pointers and annotated nulls (outside the documented wrapper shapes), shadowed field names (ion-go panics by design), non-string map keys. Trusts the harness's reflection walk and the reference decoders.",
             "DESIGN.md section 5, C16"),
+    "C17": (PBT + " + exhaustive (value exemplar x target type x format x entry point) matrix; reference conversion table with must-store / must-error / either verdicts as oracle, stored values described by the harness's own reflection walk",
+            "Exploration with an exhaustive sub-grid: ~125 exemplar Ion values (29 integer boundaries to 2^128, every typed null, float32/64 boundaries, symbols with and without text, lobs, lists / sexps / structs incl. mixed and out-of-range elements) x 75 target types (every integer width, floats, string, []byte, [4]byte, Timestamp, time.Time, Decimal, big.Int, SymbolToken, interface{}, a non-empty interface, pointer / slice / array / map / struct / annotation-wrapper shapes) x {UnmarshalString text, Unmarshal binary, Decoder.DecodeTo} = ~30 000 cells, plus 40 000 random (value, target) pairs and 12 000 Decoder streams per quick run (n values in order, then ErrNoInput thrice).",
+            "Verdict 'either' (error or the natural result, both accepted) is used for typed nulls leaving the zero value, surplus list elements / lob bytes for fixed-size arrays, float into Decimal, the case-insensitive field-name fallback and annotated structs into a wrapper. Trusts the conversion table and the reflection walk.",
+            "DESIGN.md section 5, C17"),
     "C19": ("fault enumeration + property-based testing with pgregory.net/rapid: every single split point / every read-fault offset / every failing Write-call index enumerated for a fixed set of documents and call sequences, random plans elsewhere; metamorphic oracle (any delivery plan vs whole buffer) and validity oracles (fault reported, sticky, accepted bytes a prefix)",
             "Fault enumeration: for ~100 fixed documents (hand-written lookahead-hungry texts/binaries + deterministic generator examples) every split point x {EOF alone, EOF with data} x {full, container-skipping traversal}, and a read failure at every byte offset x {alone, with data} x {persistent, one-off} x {whole, byte-at-a-time}; for 40 fixed call sequences x 4 writer configurations a write failure at every Write-call index x {nothing, half accepted} x {persistent, one-off}; plus ~17 000 random (document, plan) / (sequence, fault) cases per quick run including documents straddling bufio's 4096-byte buffer and corrupted documents.",
             "Faults are injected in the io.Reader / io.Writer the harness hands to ion-go (no hooks). A read plan returns at most one (0,nil) in a row. One-off (transient) faults are part of the fault model: the reader/writer must still report them. Trusts the harness's plan reader / fault writer, rapid, Go.",
